@@ -129,6 +129,17 @@ fn alphabet(n: usize, tier: Tier) -> Vec<Dev> {
         true
     }));
     // derives that reach the generated enum only through a passed-through attribute, together with a variant-level pass-through
+    // several pass-through items with the SAME path (strum(..) twice), in one attribute and spread over three
+    d.push(dev("strum_discriminants(derive(Display), strum(serialize_all = \"snake_case\"), strum(prefix = \"p/\")) in one attribute", &["dd"], |s| {
+        s.extra_attrs.push("#[strum_discriminants(derive(strum::Display), strum(serialize_all = \"snake_case\"), strum(prefix = \"p/\"))]".into());
+        true
+    }));
+    d.push(dev("strum_discriminants: derive(Display) / strum(prefix = \"p/\") / strum(serialize_all = \"snake_case\") in three attributes", &["dd"], |s| {
+        s.extra_attrs.push("#[strum_discriminants(derive(strum::Display))]".into());
+        s.extra_attrs.push("#[strum_discriminants(strum(prefix = \"p/\"))]".into());
+        s.extra_attrs.push("#[strum_discriminants(strum(serialize_all = \"snake_case\"))]".into());
+        true
+    }));
     d.push(dev("strum_discriminants(cfg_attr(all(), derive(EnumMessage))) + v0 pass-through message", &["dd", "dmsg0"], |s| {
         s.extra_attrs.push("#[strum_discriminants(cfg_attr(all(), derive(strum::EnumMessage)))]".into());
         s.variants[0].extra_attrs.push("#[strum_discriminants(strum(message = \"dm0\"))]".into());
@@ -345,6 +356,12 @@ pub fn render(spec: &EnumSpec) -> String {
             let snake = refsem::recase(&v.ident, refsem::Style::Snake);
             o.push_str(&format!("    extras.push((\"pass-through serialize_all: Display of {id}\".into(), {sn:?}.into(), DC::{id}.to_string()));\n", id = v.ident, sn = snake));
             o.push_str(&format!("    extras.push((\"pass-through serialize_all: EnumString of {sn}\".into(), \"Ok({id})\".into(), format!(\"{{:?}}\", <DC as core::str::FromStr>::from_str({sn:?}))));\n", id = v.ident, sn = snake));
+        }
+    }
+    if all.contains("prefix = \"p/\"") {
+        for v in &spec.variants {
+            let want = format!("p/{}", refsem::recase(&v.ident, refsem::Style::Snake));
+            o.push_str(&format!("    extras.push((\"two strum(..) pass-through items (serialize_all + prefix): Display of {id}\".into(), {w:?}.into(), DC::{id}.to_string()));\n", id = v.ident, w = want));
         }
     }
     if all.contains("alias::Display") {
